@@ -149,6 +149,12 @@ class Check(BaseCheck):
             ok = exp[0] != 'err' and self.matches(exp, got)
             if ok and exp[0] == 'num' and op in '+-*' and all(isinstance(x, int) and not isinstance(x, bool) for x in (a, b)):
                 ok = Fr(got) == exp[1]          # integer arithmetic is exact, also beyond 2**53
+            elif ok and exp[0] == 'num' and op in '+-*/' and all(isinstance(x, (int, float)) for x in (a, b)) and is_num(got):
+                # one correctly rounded operation on two numbers: within an ulp OF THE RESULT, however small it is beside the operands
+                ok = abs(Fr(got) - exp[1]) <= abs(exp[1]) * Fr(1, 2 ** 51)
+                if not ok:
+                    rec.violation('C06/%s:number-number:result-not-within-an-ulp-of-the-exact-value' % op, formula=f, a=a, b=b, record=r, expected=float(exp[1]), injected=how)
+                    ok = True       # reported under its own key
         if not ok:
             rec.violation('C06/%s:%s-%s:expected-%s' % (op, GV.broad_class(a), GV.broad_class(b), exp[0] if exp[0] != 'err' else exp[1]),
                           formula=f, a=a, b=b, record=r, expected=exp, injected=how)
@@ -163,6 +169,14 @@ class Check(BaseCheck):
             for ca in CLASSES:
                 for cb in CLASSES:
                     a, b = self.gen(rnd, ca), self.gen(rnd, cb)
+                    if ca in ('int', 'float') and cb in ('int', 'float') and rnd.random() < 0.25 and isinstance(a, (int, float)) and a == a and abs(a) < 1e300 and (isinstance(a, float) or abs(a) < 2 ** 53):
+                        # operands that agree to 15 digits without being equal: their sum or difference is tiny beside them
+                        import math
+                        b = float(a)
+                        for _ in range(rnd.randint(1, 4)):
+                            b = math.nextafter(b, rnd.choice([-math.inf, math.inf]))
+                        if rnd.random() < 0.5:
+                            b = -b
                     if rnd.random() < 0.08 and isinstance(a, list):
                         b = [GV.gen(rnd, 'int') for _ in range(len(a))]          # equal-length array pairs
                     for op in OPS:
